@@ -46,9 +46,14 @@ pub struct Sc {
     pub place: Place,
     /// `-name QN -quit` appended to the expression
     pub quit_name: Option<String>,
+    /// a second `{} +` action right after the first (is it -execdir?): it is reached for the
+    /// same paths, and a success of one must not hide a failure of the other
+    #[serde(default)]
+    pub second: Option<bool>,
 }
 
 const CMD: &str = "CMD";
+const CMD2: &str = "CMD2";
 const OK: &[u8] = b"\x01OK";
 
 impl Sc {
@@ -75,6 +80,12 @@ impl Sc {
         action.extend(self.fixed.iter().cloned());
         action.push("{}".into());
         action.push("+".into());
+        if let Some(d2) = self.second {
+            action.push(if d2 { "-execdir".into() } else { "-exec".into() });
+            action.push(CMD2.into());
+            action.push("{}".into());
+            action.push("+".into());
+        }
         let mark: Vec<String> = vec!["-printf".into(), "\\001OK\\0".into()];
         let s = |x: &str| x.to_string();
         match self.place {
@@ -256,6 +267,7 @@ impl Property for C08 {
             fixed,
             place: *rng.pick(&[Place::Plain, Place::Plain, Place::Parens, Place::Negated, Place::OrLeft, Place::OrRight, Place::Comma]),
             quit_name,
+            second: if rng.chance(1, 5) { Some(rng.chance(1, 2)) } else { None },
         };
         sc.render();
         sc
@@ -379,109 +391,118 @@ impl Property for C08 {
         if sc.quit_name.is_some() {
             rep.probe("quit_in_expression");
         }
-        // every invocation: CMD, FIXED, then at least one path
-        let nfix = 1 + sc.fixed.len();
-        let mut delivered: Vec<(usize, Vec<u8>, String)> = vec![]; // (spawn pos, path arg, dir)
-        for (k, (pos, argv, cwd, _)) in spawns.iter().enumerate() {
-            let prefix_ok = argv.len() > nfix
-                && argv[0] == CMD.as_bytes()
-                && argv[1..nfix].iter().zip(&sc.fixed).all(|(a, f)| a == f.as_bytes());
-            if !prefix_ok {
+        // each `{} +` action of the expression is judged on its own invocations
+        let mut actions: Vec<(&str, bool, Vec<String>)> = vec![(CMD, sc.execdir, sc.fixed.clone())];
+        if let Some(d2) = sc.second {
+            actions.push((CMD2, d2, vec![]));
+            rep.probe("two_multi_exec_actions_in_one_expression");
+        }
+        for (a_name, a_execdir, a_fixed) in actions {
+            let sp: Vec<&(usize, Vec<Vec<u8>>, Option<Vec<u8>>, Outcome)> = spawns.iter().filter(|s| s.1.first().map(|x| x.as_slice()) == Some(a_name.as_bytes())).collect();
+            // every invocation: CMD, FIXED, then at least one path
+            let nfix = 1 + a_fixed.len();
+            let mut delivered: Vec<(usize, Vec<u8>, String)> = vec![]; // (spawn pos, path arg, dir)
+            for (k, (pos, argv, cwd, _)) in sp.iter().enumerate() {
+                let prefix_ok = argv.len() > nfix
+                    && argv[0] == a_name.as_bytes()
+                    && argv[1..nfix].iter().zip(&a_fixed).all(|(a, f)| a == f.as_bytes());
+                if !prefix_ok {
+                    rep.fail(
+                        if argv.len() <= nfix { "C08.invocation-without-path" } else { "C08.fixed-arguments-changed" },
+                        format!("{}: invocation #{k}: {:?}", describe(), argv.iter().take(8).map(|a| crate::sys::show(&a[..a.len().min(60)])).collect::<Vec<_>>()),
+                    );
+                    return;
+                }
+                let dir = cwd.as_ref().map(|c| rel_dir(c, &obs.root)).unwrap_or_default();
+                // -exec + runs in find's own directory (an explicit `.` is the same place)
+                if !a_execdir && cwd.is_some() && !dir.is_empty() {
+                    rep.fail("C08.unexpected-cwd", format!("{}: -exec + ran in [{}]", describe(), dir));
+                    return;
+                }
+                for a in &argv[nfix..] {
+                    delivered.push((*pos, a.clone(), dir.clone()));
+                }
+                // acceptable to the operating system?
+                let env: Vec<(String, String)> = std::env::vars().collect();
+                let cost = kernel_cost(argv.iter().map(|a| a.len()), argv.len(), &env);
+                let budget = kernel_budget(sc.find.rlimit_stack, ctx.default_stack);
+                if cost * 10 > budget * 8 {
+                    rep.probe("invocation_above_80_percent_of_kernel_budget");
+                }
+                if cost > budget || argv.iter().any(|a| a.len() + 1 > 131072) {
+                    // confirm with the real kernel before reporting
+                    let mut c = std::process::Command::new("/bin/true");
+                    for a in &argv[1..] {
+                        c.arg(<std::ffi::OsStr as std::os::unix::ffi::OsStrExt>::from_bytes(a));
+                    }
+                    match c.status() {
+                        Err(e) if e.raw_os_error() == Some(libc::E2BIG) => {
+                            rep.fail(
+                                "C08.invocation-rejected-by-os",
+                                format!("{}: invocation #{k} with {} arguments costs {cost} bytes, kernel budget {budget}: execve says E2BIG", describe(), argv.len()),
+                            );
+                            return;
+                        }
+                        _ => rep.probe("formula_predicted_rejection_kernel_accepted"),
+                    }
+                }
+            }
+            // each reached path to exactly one invocation, in visit order
+            let want: Vec<(Vec<u8>, String)> = markers
+                .iter()
+                .map(|(_, p)| {
+                    if a_execdir {
+                        let (d, n) = split_for_execdir_bytes(p);
+                        (n, d)
+                    } else {
+                        (p.clone(), String::new())
+                    }
+                })
+                .collect();
+            let got: Vec<(Vec<u8>, String)> = delivered.iter().map(|(_, a, d)| (a.clone(), d.clone())).collect();
+            if got != want {
+                let class = if got.len() < want.len() && want.starts_with(&got) {
+                    if sc.quit_name.is_some() && obs.log.events.iter().any(|_| true) && markers.last().map(|m| String::from_utf8_lossy(&m.1).ends_with(sc.quit_name.as_deref().unwrap_or("\u{0}"))).unwrap_or(false) {
+                        "C08.pending-batch-lost-at-quit"
+                    } else {
+                        "C08.pending-batch-never-run"
+                    }
+                } else if got.len() == want.len() && got.iter().map(|g| &g.0).eq(want.iter().map(|w| &w.0)) {
+                    "C08.execdir-wrong-directory"
+                } else if a_execdir && got.iter().map(|g| &g.0).eq(markers.iter().map(|m| &m.1)) {
+                    "C08.execdir-path-not-dot-slash-basename"
+                } else {
+                    let mut a: Vec<&Vec<u8>> = got.iter().map(|g| &g.0).collect();
+                    let mut b: Vec<&Vec<u8>> = want.iter().map(|g| &g.0).collect();
+                    a.sort();
+                    b.sort();
+                    if a == b {
+                        "C08.paths-out-of-order"
+                    } else {
+                        "C08.path-lost-or-duplicated"
+                    }
+                };
+                let first = got.iter().zip(&want).position(|(a, b)| a != b).unwrap_or(got.len().min(want.len()));
                 rep.fail(
-                    if argv.len() <= nfix { "C08.invocation-without-path" } else { "C08.fixed-arguments-changed" },
-                    format!("{}: invocation #{k}: {:?}", describe(), argv.iter().take(8).map(|a| crate::sys::show(&a[..a.len().min(60)])).collect::<Vec<_>>()),
+                    class,
+                    format!(
+                        "{}: {} paths reached the action, {} were passed in {} invocation(s); first difference at #{first}: reached {:?}, passed {:?}",
+                        describe(),
+                        want.len(),
+                        got.len(),
+                        sp.len(),
+                        want.get(first).map(|w| (crate::sys::show(&w.0[..w.0.len().min(80)]), w.1.clone())),
+                        got.get(first).map(|w| (crate::sys::show(&w.0[..w.0.len().min(80)]), w.1.clone())),
+                    ),
                 );
                 return;
             }
-            let dir = cwd.as_ref().map(|c| rel_dir(c, &obs.root)).unwrap_or_default();
-            // -exec + runs in find's own directory (an explicit `.` is the same place)
-            if !sc.execdir && cwd.is_some() && !dir.is_empty() {
-                rep.fail("C08.unexpected-cwd", format!("{}: -exec + ran in [{}]", describe(), dir));
-                return;
-            }
-            for a in &argv[nfix..] {
-                delivered.push((*pos, a.clone(), dir.clone()));
-            }
-            // acceptable to the operating system?
-            let env: Vec<(String, String)> = std::env::vars().collect();
-            let cost = kernel_cost(argv.iter().map(|a| a.len()), argv.len(), &env);
-            let budget = kernel_budget(sc.find.rlimit_stack, ctx.default_stack);
-            if cost * 10 > budget * 8 {
-                rep.probe("invocation_above_80_percent_of_kernel_budget");
-            }
-            if cost > budget || argv.iter().any(|a| a.len() + 1 > 131072) {
-                // confirm with the real kernel before reporting
-                let mut c = std::process::Command::new("/bin/true");
-                for a in &argv[1..] {
-                    c.arg(<std::ffi::OsStr as std::os::unix::ffi::OsStrExt>::from_bytes(a));
+            // a path is passed only after it was reached
+            for (j, (spos, _, _)) in delivered.iter().enumerate() {
+                if markers[j].0 > *spos {
+                    rep.fail("C08.passed-before-reached", format!("{}: path #{j} was passed before the action was reached on it", describe()));
+                    return;
                 }
-                match c.status() {
-                    Err(e) if e.raw_os_error() == Some(libc::E2BIG) => {
-                        rep.fail(
-                            "C08.invocation-rejected-by-os",
-                            format!("{}: invocation #{k} with {} arguments costs {cost} bytes, kernel budget {budget}: execve says E2BIG", describe(), argv.len()),
-                        );
-                        return;
-                    }
-                    _ => rep.probe("formula_predicted_rejection_kernel_accepted"),
-                }
-            }
-        }
-        // each reached path to exactly one invocation, in visit order
-        let want: Vec<(Vec<u8>, String)> = markers
-            .iter()
-            .map(|(_, p)| {
-                if sc.execdir {
-                    let (d, n) = split_for_execdir_bytes(p);
-                    (n, d)
-                } else {
-                    (p.clone(), String::new())
-                }
-            })
-            .collect();
-        let got: Vec<(Vec<u8>, String)> = delivered.iter().map(|(_, a, d)| (a.clone(), d.clone())).collect();
-        if got != want {
-            let class = if got.len() < want.len() && want.starts_with(&got) {
-                if sc.quit_name.is_some() && obs.log.events.iter().any(|_| true) && markers.last().map(|m| String::from_utf8_lossy(&m.1).ends_with(sc.quit_name.as_deref().unwrap_or("\u{0}"))).unwrap_or(false) {
-                    "C08.pending-batch-lost-at-quit"
-                } else {
-                    "C08.pending-batch-never-run"
-                }
-            } else if got.len() == want.len() && got.iter().map(|g| &g.0).eq(want.iter().map(|w| &w.0)) {
-                "C08.execdir-wrong-directory"
-            } else if sc.execdir && got.iter().map(|g| &g.0).eq(markers.iter().map(|m| &m.1)) {
-                "C08.execdir-path-not-dot-slash-basename"
-            } else {
-                let mut a: Vec<&Vec<u8>> = got.iter().map(|g| &g.0).collect();
-                let mut b: Vec<&Vec<u8>> = want.iter().map(|g| &g.0).collect();
-                a.sort();
-                b.sort();
-                if a == b {
-                    "C08.paths-out-of-order"
-                } else {
-                    "C08.path-lost-or-duplicated"
-                }
-            };
-            let first = got.iter().zip(&want).position(|(a, b)| a != b).unwrap_or(got.len().min(want.len()));
-            rep.fail(
-                class,
-                format!(
-                    "{}: {} paths reached the action, {} were passed in {} invocation(s); first difference at #{first}: reached {:?}, passed {:?}",
-                    describe(),
-                    want.len(),
-                    got.len(),
-                    spawns.len(),
-                    want.get(first).map(|w| (crate::sys::show(&w.0[..w.0.len().min(80)]), w.1.clone())),
-                    got.get(first).map(|w| (crate::sys::show(&w.0[..w.0.len().min(80)]), w.1.clone())),
-                ),
-            );
-            return;
-        }
-        // a path is passed only after it was reached
-        for (j, (spos, _, _)) in delivered.iter().enumerate() {
-            if markers[j].0 > *spos {
-                rep.fail("C08.passed-before-reached", format!("{}: path #{j} was passed before the action was reached on it", describe()));
-                return;
             }
         }
         // exit status: non-zero iff some invocation failed or could not start
@@ -502,7 +523,7 @@ impl Property for C08 {
                 "rlimit_stack": sc.find.rlimit_stack,
                 "env_bytes": sc.find.env.as_ref().map(|e| e.iter().map(|(k, v)| k.len() + v.len() + 2).sum::<usize>()),
                 "reached": markers.len(),
-                "invocations": spawns.iter().map(|(_, a, c, o)| json!({"paths": a.len() - nfix, "bytes": a.iter().map(|x| x.len() + 1).sum::<usize>(), "cwd": c.as_ref().map(|c| crate::sys::show(c)), "outcome": o})).collect::<Vec<_>>(),
+                "invocations": spawns.iter().map(|(_, a, c, o)| json!({"command": crate::sys::show(&a[0]), "arguments": a.len(), "bytes": a.iter().map(|x| x.len() + 1).sum::<usize>(), "cwd": c.as_ref().map(|c| crate::sys::show(c)), "outcome": o})).collect::<Vec<_>>(),
                 "status": obs.status,
             }));
         }
@@ -535,6 +556,11 @@ impl Property for C08 {
         if sc.quit_name.is_some() {
             let mut s = sc.clone();
             s.quit_name = None;
+            push(s);
+        }
+        if sc.second.is_some() {
+            let mut s = sc.clone();
+            s.second = None;
             push(s);
         }
         if !sc.tests.is_empty() {
